@@ -14,7 +14,8 @@ RULE = ("grid shapes 1..7 x 1..7 (single row/column and non-square included), no
         "demanded rejection; distinct = SHA-1 of the case")
 ASSUMPTIONS = [
     "axis vectors hold pairwise distinct finite values (needed to address cells by coordinate)",
-    "non-meshgrid inputs are perturbed by at least half the value magnitude (the function's meshgrid test is documented as approximate)",
+    "non-meshgrid inputs are perturbed by at least half the value magnitude in one cell, or sheared so that the last row/column is 3e-4 of the coordinate size away "
+    "from the first (30 times numpy.allclose's default tolerance; the function documents 'rows identical' and tests it approximately)",
 ]
 
 
@@ -265,7 +266,7 @@ def invalid_cases(draw):
     nr, nc = draw(st.integers(2, 6)), draw(st.integers(2, 6))
     return dict(nr=nr, nc=nc, east=draw(axis(nc)), north=draw(axis(nr)), seed=draw(st.integers(0, 10**6)), int_data=False,
                 kind=draw(st.sampled_from(["not_meshgrid_e", "not_meshgrid_n", "names_short", "names_long", "extra_names_none",
-                                           "extra_names_count", "mixed_ndim", "from_1d_given_2d", "to_1d_not_meshgrid", "names_none"])),
+                                           "extra_names_count", "mixed_ndim", "from_1d_given_2d", "to_1d_not_meshgrid", "names_none", "drift_e", "drift_n", "drift_to_1d"])),
                 i=draw(st.integers(0, nr - 1)), j=draw(st.integers(0, nc - 1)))
 
 
@@ -277,7 +278,18 @@ def check_invalid(case, ctx):
     bad_e, bad_n = ee.copy(), nn.copy()
     bad_e[i, j] += 0.5 * max(1.0, abs(bad_e[i, j])) + (np.ptp(east) if nc_gt1(east) else 1.0)
     bad_n[i, j] += 0.5 * max(1.0, abs(bad_n[i, j])) + (np.ptp(north) if nc_gt1(north) else 1.0)
+    # a sheared "grid": every row (column) differs from its neighbour by less than a round-off-like 5e-6 of the coordinate size, the last one from the
+    # first by 3e-4 of it (e.g. 150 m in UTM coordinates): the rows are not identical, the arrays are not a meshgrid
+    base = 10.0 ** (1 + case["seed"] % 6)
+    de, dn = np.meshgrid(base + 10.0 * np.arange(7), base + 10.0 * np.arange(61))
+    drift_e = de + (5e-6 * base) * np.arange(61)[:, None]
+    dn2, de2 = np.meshgrid(base + 10.0 * np.arange(7), base + 10.0 * np.arange(61), indexing="ij")  # 7 rows, 61 columns
+    drift_n = dn2 + (5e-6 * base) * np.arange(61)[None, :]
+    dd = np.zeros(de.shape)
     calls = {
+        "drift_e": lambda: vd.make_xarray_grid((drift_e, dn), dd, "a"),
+        "drift_n": lambda: vd.make_xarray_grid((de2, drift_n), dd.T, "a"),
+        "drift_to_1d": lambda: vd.utils.meshgrid_to_1d((drift_e, dn)),
         "not_meshgrid_e": lambda: vd.make_xarray_grid((bad_e, nn), d0, "a"),
         "not_meshgrid_n": lambda: vd.make_xarray_grid((ee, bad_n), d0, "a"),
         "names_short": lambda: vd.make_xarray_grid((east, north), (d0, d1), ("a",)),
